@@ -1,92 +1,88 @@
 # Table of claimed checks; executed by mkmanifest.py.
-NOTES = ("Runtime monitoring only: every verdict is an oracle observing executions of the real code. Exit 0 = held on what was observed, "
+NOTES = ("Runtime monitoring only: every verdict is an oracle observing executions of the real code built from /repo's working tree. Exit 0 = held on what was observed, "
          "exit 1 + VIOLATION line = refuted with replay file, exit 2 + INCONCLUSIVE line = nothing can be said (never folded into the others). "
-         "Known findings: /verif/known_findings.json.")
+         "Known findings: /verif/known_findings.json (2 open, both pinned by existing tests; the fix: commits are listed as fixed and suppress nothing). "
+         "Validation of the monitors: 143+ independent seeded changes in /verif/seeded (tools/runseeded.sh), every fix reversed (tools/regress.sh), behaviour-preserving refactors in "
+         "/verif/neutral (tools/runneutral.sh), syntactic mutation screening (tools/mutscreen.py, mutscreen/SUMMARY.md). Thorough tier adds a coverage-based reach audit to the evidence.")
 HOOK_COMMITS = ["f9ac6f7"]
 
 add("C01", "exploration",
-    "runtime monitor: encode/decode round-trip oracle over generated well-formed packets (class cross product + seeded fill), recover()-guarded",
-    "Held on the generated Packet/Header values (60k quick / 6M thorough, every class combination of CSRC x extension kind x payload x padding); says nothing about values the generator does not produce.",
+    "runtime monitor: encode/decode round-trip oracle over generated well-formed packets (class cross product + seeded fill), recover()-guarded, independent RFC decoder as diagnostic",
+    "Held on 600k (quick) / 12M (thorough) generated Packet/Header values: every class combination of CSRC x extension kind x payload x padding, incl. blocks and payloads beyond 64 KiB.",
     "Trusts the harness generator/bridge (public API only) and its equality convention (nil == empty; ExtensionProfile ignored without X).")
-
 add("C02", "exploration",
-    "runtime monitor: recover() guard + structural invariants of accepted parses + fresh-vs-reused receiver twin over hostile byte-string streams (exhaustive <=2 bytes, alphabet walk, mutants)",
-    "Held on every byte string fed (all strings <=2 bytes and the extension-region alphabet walk exhaustively; ~400k quick / 40M thorough generated strings in streams through persistent receivers).",
-    "Non-termination is only detectable through the process watchdog + pinboard; inputs are generated, not enumerated beyond the exhaustive strata.")
+    "runtime monitor: recover() guard + structural invariants of accepted parses + fresh-vs-reused receiver twin (fields, len(Extensions), wire image after a follow-up SetExtension) over hostile byte-string streams",
+    "All strings <= 2 bytes and the extension-region alphabet walk exhaustively; 100k/2.5M streams of 8-32 hostile inputs through persistent receivers; inputs with exact and spare (canary) capacity.",
+    "Non-termination is only detectable through the process watchdog + pinboard; beyond the exhaustive strata inputs are generated.")
 add("C03", "exploration",
     "runtime monitor: differential against an independent RFC 3550/8285 reference encoder/decoder (grammar images incl. non-canonical layouts), re-encode stability oracle on accepted mutants, block-view oracle",
-    "Held on the grammar images generated (100k quick / 8M thorough) and on every accepted mutant; one open known finding (id-15 terminator, pinned by an existing test).",
+    "Held on 500k/10M grammar images, 1M/20M mutants (every accepted one re-encoded), 300k/6M standalone block views; one open known finding (id-15 terminator, pinned by an existing test).",
     "Trusts the reference encoder/decoder pair (cross-checked against each other on every case).")
 add("C04", "exploration",
-    "runtime monitor: MarshalTo judged against Marshal() on dirty destination buffers of every length 0..size+8, recover()-guarded",
-    "Held on all generated packets/headers x every destination length x four prior contents (1.3M calls quick).",
+    "runtime monitor: MarshalTo judged against Marshal() on dirty destination buffers of every length 0..size+8 (also nil, also windows with spare capacity guarded by a canary), recover()-guarded",
+    "35k/900k packets and headers x every destination length x four prior contents (about 7M calls quick).",
     "Marshal() is the byte reference; nothing is demanded of dst after a failed call.")
 add("C05", "exploration",
-    "runtime monitor: shadow ordered-map model following returned errors + wire clause; all op sequences of length <=2 over the class alphabet exhaustively, random longer ones",
-    "Held on every sequence of <=2 operations over the boundary alphabet x 11 start states and on 120k/12M random sequences.",
-    "The model never predicts failures, it follows returned errors; ids/lengths outside the class alphabet are sampled.")
-add("C20", "exploration",
-    "runtime monitor: twin (mutate one side, watch the other's snapshot) + address-range overlap monitor over full slice capacity",
-    "Held on 30k/3M generated packets and headers under 12 mutation kinds in both directions.",
-    "Extension values are reached through GetExtension only; snapshots are fields + Marshal bytes.")
-
+    "runtime monitor: shadow ordered-map model following returned errors + wire clause; all op sequences of length <=2 (thorough: 3) over the class alphabet exhaustively, random longer ones incl. values that share storage",
+    "Every sequence of <=2 (thorough <=3) operations over the boundary alphabet x 11 start states; 600k/15M random sequences.",
+    "The model never predicts failures, it follows returned errors; a successful DelExtension may change nothing but the element list.")
+add("C06", "exploration",
+    "runtime monitor: shadow model of the packet train fed by a recording payloader wrapper (12 payloaders incl. silent and odd-shaped ones); injected-clock reference for abs-send-time; Marshal/Unmarshal oracle; history re-check of earlier packets; race detector + gap-free check on a shared sequencer",
+    "200k/5M operation sequences over boundary MTUs, wrap-adjacent sequencers, sample counts around 2^32 and adversarial clock instants; 1k/30k shared-sequencer runs on the race build.",
+    "Fragments are what the wrapped payloader returned; padding packets' timestamp and size-vs-MTU are not judged (the property does not fix them).")
+add("C07", "exploration",
+    "Go race detector + client-boundary history recording checked offline by porcupine (linearizability against a sequential (last, rollovers) model) and by an O(n log n) unique-value real-time-order checker; exhaustive sequential pass over all 65 536 start values",
+    "All 65 536 start values; 10k/200k short concurrent histories with the wrap inside and 3/100 long histories on the race-instrumented build with injected yields (client side and at an in-method hook); 800k/8M random sequencers.",
+    "Only schedules the Go scheduler produced were observed; a race-free non-atomic change is found probabilistically (the evidence counts overlapping operations and distinct issue orders).")
+add("C08", "exploration",
+    "runtime monitor: recover() guard, MTU bound, input immutability (within len and in spare capacity), address-range overlap monitor (fragments vs caller buffers, fragments vs each other, hooked retained state), scribble twin across calls, interleaved unrelated instance, Go race detector tripwire",
+    "Every payloader/option x every MTU 0-16; 300k/8M instance runs of 1-4 calls (MTU may change between calls) over hostile, seeded and valid inputs incl. > 65535 fragments and LEB128-boundary packing; 6k/300k race-build tripwire runs.",
+    "VP9 with nil InitialPictureIDFn is random by design (no twin compare); the race tripwire is secondary to the overlap and twin monitors.")
+add("C09", "exploration",
+    "runtime monitor: recover() guard, fresh-vs-reused receiver twin (result, error-ness, metadata), scribble twin + address-range overlap monitor on hooked retained state, interleaved unrelated receiver, exhaustive short strings",
+    "Every byte string of length <=2 (thorough <=3) through 21 persistent receivers; 400k/10M hostile sequences of 1-20 payloads incl. payloads beyond 64 KiB; race-build tripwire on the stateful receivers.",
+    "Metadata = exported fields / accessor values; compared when the fresh decode succeeds.")
+add("C10", "exploration",
+    "runtime monitor: differential against an independent RFC 6184 reassembler (payloader side) and an independent RFC 6184 encoder (depacketizer side); expected Annex-B/AVC framing; IsPartitionHead vs first-payload-of-unit",
+    "300k/8M access-unit sequences x MTU 3.. x StapA x AVC (units up to 131 073 bytes, STAP-A next to the MTU, last-fragment remainders 0-2) and 200k/6M independently encoded streams (single incl. one-byte NALs, STAP-A, FU-A with empty fragments).",
+    "NAL content follows the start-code emulation rule (no 00 00 0x) and does not end in 00; parameter sets only as adjacent SPS,PPS pairs followed by an emitted unit.")
+add("C11", "exploration",
+    "runtime monitor: concatenation oracle + shadow picture-id counter (66 000-frame instance runs across 128 and two 15-bit wraps) + independent RFC 7741 descriptor parser/encoder; exhaustive flag space for the decoder",
+    "All 2^10 flag combinations x PID x RSV with boundary field values, every truncation, IsPartitionHead == S; 40k/1M short and 16/300 long instance runs; frames beyond 64 KiB.",
+    "Fields whose presence flag is clear must read as zero; a complete descriptor is accepted whatever follows it.")
+add("C12", "exploration",
+    "runtime monitor: independent VP9 uncompressed-header bit-writer and RFC 9628 descriptor encoder/parser; concatenation oracle; shadow picture-id counter (70 000-frame runs)",
+    "150k/4M payloader instances, 300k/8M headers (each with every prefix), 600k/15M descriptors (each with every truncation, IsPartitionHead == B).",
+    "Width 65536 excluded from the SS clause; show-existing frames judged for losslessness/B/E/id only.")
+add("C13", "exploration",
+    "runtime monitor: differential against an independent AV1 RTP aggregation parser/reassembler, three-way OBU comparison (reference, AV1Depacketizer, AV1Packet+frame assembler); LEB128-boundary packing stratum; exhaustive LEB128 and OBU-header strata",
+    "300k/8M OBU sequences x MTU 2.. (non-minimal size fields, remainders -2..3, > 65535 packets), 6k/300k boundary-packing cases; LEB128 on every v<2^17, boundary windows and a 2^20-point stride; all 2^16 OBU header byte pairs.",
+    "N bit not judged; layer of an OBU whose extension byte falls into the next packet is not attributed.")
+add("C14", "exploration",
+    "runtime monitor: differential against an independent RFC 7798 parser/reassembler and encoder; exhaustive 2^16 payload headers, 2^8 FU headers, 2^16 PACI words, 2^24 TSCI triples (2^20 sampled in quick)",
+    "300k/8M unit sequences (aggregation packets next to the MTU, units beyond 64 KiB, TID 0) and 300k/8M independently encoded payloads with every truncation; one open known finding (DONL in every FU, pinned by an existing test).",
+    "DONL/DOND values are not judged, only placement; truncation judged inside the mandatory part.")
+add("C15", "fault_enumeration",
+    "runtime monitor with fault enumeration: every delivery subset (2^n for n<=10, thorough n<=13) of an earlier frame, garbage and second lossy frames as history, megabyte-sized abandoned fragments, twin against a fresh receiver on the following intact frame",
+    "All 2^n loss subsets for trains of up to 10 (13) packets over 10k/300k frame pairs per codec (about 5M / 1G injected loss patterns).",
+    "In-order delivery; the later frame is complete; H264 trains from the independent encoder (incl. empty fragments), AV1 trains from the library payloader.")
 add("C16", "exploration",
-    "runtime monitor: concatenation / fragment-size oracle over the exhaustive (length 0-320) x (MTU 1-320) grid plus MTU-multiple boundaries; overlap + scribble monitor for Opus",
-    "Held on the complete 321x320 grid for both payloaders, on k*MTU-1..k*MTU+1 for nine MTUs up to 10 000 bytes, and on Opus lengths 0-320 + nil.",
+    "runtime monitor: concatenation / fragment-size oracle over the exhaustive (length 0-320) x (MTU 1-320) grid plus MTU-multiple boundaries and > 65535 fragments; inputs with exact and spare capacity; overlap + scribble monitor for Opus",
+    "The complete 321x320 grid for both payloaders, k*MTU-1..k*MTU+1 for nine MTUs, 65536*MTU+-1 at MTU 1-3, 200k/4M random pairs, Opus lengths 0-320 + nil.",
     "Input bytes are random; the split is value-independent in the code observed.")
 add("C17", "exploration",
-    "runtime monitor: exhaustive execution of the value domains (2x256, 2^16, 2^24, 2^24) against bit layouts from the specifications; pre-loaded receiver twin; every input length 0..size+2",
-    "Every value of AudioLevel, TransportCC, PlayoutDelay and AbsSendTime was executed; AbsCaptureTime 2^20 (quick) / 2^24 (thorough) seeded 64-bit values x 3 receiver histories.",
+    "runtime monitor: exhaustive execution of the value domains (2x256, 2^16, 2^24, 2^24) against bit layouts from the specifications; pre-loaded receiver twin; every input length 0..size+2 and much longer ones; returned buffers must be fresh",
+    "Every value of AudioLevel, TransportCC, PlayoutDelay and AbsSendTime; AbsCaptureTime 2^21 (quick) / 2^24 (thorough) seeded 64-bit values x 3 receiver histories.",
     "Layouts restated in the monitor from RFC 6464 / the WebRTC extension documents.")
 add("C18", "exploration",
-    "runtime monitor: integer-nanosecond reference bounds over boundary-concentrated (instant, offset, delay) triples",
-    "Held on ~2M (quick) / 200M (thorough) triples concentrated at 64 s wraps, whole seconds, era end, offset extremes and delays just below 64 s.",
+    "runtime monitor: integer-nanosecond reference bounds over boundary-concentrated (instant, offset, delay) triples; time.Time values with locations and monotonic readings",
+    "About 10M (quick) / 300M (thorough) triples concentrated at 64 s wraps, whole seconds, 2^-18 s field-unit boundaries, the era end, offset extremes and the largest allowed delay.",
     "Send and receive instants both before the NTP era end; 1 ns conversion slack.")
 add("C19", "exploration",
     "runtime monitor: differential against an independent video-layers-allocation00 encoder/decoder over all slot subsets; fresh-vs-used receiver twin; recover()-guarded decoder fuzz",
-    "Thorough executes all 69 900 slot subsets x resolution flag; quick all subsets for <=2 streams plus 20 000 sampled.",
+    "Thorough executes all 69 900 slot subsets x resolution flag; quick all subsets for <=2 streams plus 100 000 sampled; encodings beyond 255 bytes; 10k/200k invalid values; 15k/400k fuzz streams.",
     "Reference encoder/decoder cross-checked on every case; empty allocation only panic-checked.")
-
-add("C07", "exploration",
-    "Go race detector + client-boundary history recording checked offline by porcupine (linearizability against a sequential (last, rollovers) model) and by an O(n log n) unique-value real-time-order checker; exhaustive sequential pass over all 65 536 start values",
-    "All 65 536 start values sequentially; 10k (quick) / 200k (thorough) short concurrent histories with the wrap inside and 3 / 100 long histories, all on the race-instrumented build with injected yields (client side and at an in-method hook).",
-    "Only schedules the Go scheduler produced were observed; a race-free non-atomic change is found probabilistically (the evidence counts overlapping operations and distinct issue orders).")
-
-add("C06", "exploration",
-    "runtime monitor: shadow model of the packet train fed by a recording payloader wrapper; injected-clock reference for abs-send-time (hook) or bracketing; Marshal/Unmarshal oracle; race detector + gap-free check on a shared sequencer",
-    "Held on 40k (quick) / 3M (thorough) operation sequences over ten payloaders, boundary MTUs, wrap-adjacent sequencers and adversarial clock instants; 300 / 20k shared-sequencer runs on the race build.",
-    "Fragments are what the wrapped payloader returned; padding packets' timestamp and size-vs-MTU are not judged (the property does not fix them).")
-
-add("C10", "exploration",
-    "runtime monitor: differential against an independent RFC 6184 reassembler (payloader side) and an independent RFC 6184 encoder (depacketizer side); expected Annex-B/AVC framing; IsPartitionHead vs first-payload-of-unit",
-    "Held on 60k/6M access-unit sequences x MTU 3.. x StapA x AVC and 40k/4M independently encoded streams (single, STAP-A, FU-A with empty fragments).",
-    "NAL bodies without start-code emulation; parameter sets only as adjacent SPS,PPS pairs followed by an emitted unit.")
-add("C13", "exploration",
-    "runtime monitor: differential against an independent AV1 RTP aggregation parser/reassembler, three-way OBU comparison (reference, AV1Depacketizer, AV1Packet+frame assembler); exhaustive LEB128 and OBU-header strata",
-    "Held on 80k/8M OBU sequences x MTU 2..; LEB128 on every v<2^17, boundary windows and a 2^20-point stride; all 2^16 OBU header byte pairs.",
-    "N bit not judged; layer of an OBU whose extension byte falls into the next packet is not attributed.")
-add("C15", "fault_enumeration",
-    "runtime monitor with fault enumeration: every delivery subset (2^n for n<=10) of an earlier frame, garbage and second lossy frames as history, twin against a fresh receiver on the following intact frame",
-    "All 2^n loss subsets for trains of up to 10 packets over 2.5k/250k frame pairs per codec (about 1M / 100M injected loss patterns).",
-    "In-order delivery; the later frame is complete; H264 trains from the independent encoder, AV1 trains from the library payloader.")
-
-add("C08", "exploration",
-    "runtime monitor: recover() guard, MTU bound, input-immutability compare, address-range overlap monitor (fragments + hooked retained state vs all caller buffers), scribble twin across calls, Go race detector tripwire",
-    "Every payloader/option x every MTU 0-16 and 60k/6M instance runs of 1-4 calls over hostile, seeded and valid inputs; 2.5k/250k race-build tripwire runs.",
-    "VP9 with nil InitialPictureIDFn is random by design (no twin compare); the race tripwire is secondary to the overlap and twin monitors.")
-add("C09", "exploration",
-    "runtime monitor: recover() guard, fresh-vs-reused receiver twin (result, error-ness, metadata), scribble twin + address-range overlap monitor on hooked retained state, exhaustive short strings",
-    "Every byte string of length <=2 (thorough <=3) through 21 persistent receivers; 90k/9M hostile sequences of 1-20 payloads; race-build tripwire on the stateful receivers.",
-    "Metadata = exported fields / accessor values; compared when the fresh decode succeeds.")
-add("C11", "exploration",
-    "runtime monitor: concatenation oracle + shadow picture-id counter (33 000-frame instance runs across 128 and the 15-bit wrap) + independent RFC 7741 descriptor parser/encoder; exhaustive flag space for the decoder",
-    "All 2^10 flag combinations x PID x RSV with boundary field values and every truncation; 8k/800k short and 8/200 long instance runs.",
-    "Absent fields are not compared; a complete descriptor with zero payload bytes may be rejected.")
-add("C12", "exploration",
-    "runtime monitor: independent VP9 uncompressed-header bit-writer and RFC 9628 descriptor encoder/parser; concatenation oracle; shadow picture-id counter",
-    "30k/3M payloader instances, 60k/6M headers (each with every prefix), 120k/12M descriptors (each with every truncation).",
-    "Width 65536 excluded from the SS clause; show-existing frames judged for losslessness/B/E/id only.")
-add("C14", "exploration",
-    "runtime monitor: differential against an independent RFC 7798 parser/reassembler and encoder; exhaustive 2^16 payload headers, 2^8 FU headers, 2^16 PACI words, 2^24 TSCI triples (2^18 sampled in quick)",
-    "60k/6M unit sequences and 60k/6M independently encoded payloads with every truncation; one open known finding (DONL in every FU, pinned by an existing test).",
-    "DONL/DOND values are not judged, only placement; truncation judged inside the mandatory part.")
+add("C20", "exploration",
+    "runtime monitor: twin (mutate one side, watch the other's snapshot) + address-range overlap monitor over full slice capacity (payload, CSRC, extension list, extension values)",
+    "150k/4.5M generated packets and headers (incl. spare-capacity slices, emptied extension lists, values decoded into used receivers) under 12 mutation kinds in both directions.",
+    "Extension values are reached through GetExtension only; snapshots are fields + Marshal bytes.")
